@@ -113,14 +113,12 @@ def run_group(G, tier, seed, only_cases=None):
             group=G["name"], tier=tier, seed=seed, models=models, n_cases=len(cases), n_emitted=n_emit,
             n_gen=n_gen, n_distinct=len(distinct), n_nontrivial=sum(1 for v in distinct.values() if v),
             viols=viols, stats=tv["stats"], tags=tv.get("tags", {}), trace_lines=tv["lines"], restarts=hr["restarts"],
-            bad={str(c): dict(desc=cases[c], events=evs.get(c, [])[:200]) for c in bad_cases if c < len(cases)},
+            bad={str(c): dict(desc=cases[c], events=evs.get(c, [])[:400]) for c in bad_cases if c < len(cases)},
             samples=[dict(desc=cases[c], events=[e for e in evs.get(c, []) if e.get("ev") != "begin"][:6]) for c in sample_cases if c in evs][:3],
             wall=round(time.time() - t0, 1), cache_hit=False,
         )
-        if G.get("vacuity"):
-            msg = G["vacuity"](res)
-            if msg:
-                raise vk.ToolError("vacuity: " + msg)
+        # vacuity complaints only matter for a run that would otherwise report "held": decide() raises them
+        res["vacuity_msg"] = (G["vacuity"](res) if (G.get("vacuity") and only_cases is None) else None)
         if only_cases is None:
             vk.cache_put(G["name"], key, res)
         return res
@@ -129,7 +127,7 @@ def run_group(G, tier, seed, only_cases=None):
             shutil.rmtree(work, ignore_errors=True)
 
 
-def decide(G, pid, res, tier, seed, t_start):
+def decide(G, pid, res, tier, seed, t_start, write_evidence=True):
     """Turns a group result into the verdict, KNOWN-FINDING / VIOLATION lines and evidence of one property."""
     P = G["props"][pid]
     owned = set(P["invariants"])
@@ -200,8 +198,11 @@ def decide(G, pid, res, tier, seed, t_start):
     )
     if "coverage_extra" in P:
         cov.update(P["coverage_extra"](res))
-    vk.write_evidence(pid, tier, seed, P.get("level", "model_checking"), cov, P.get("assumptions", []),
-                      time.time() - t_start, len(violations))
+    if not violations and res.get("vacuity_msg"):
+        raise vk.ToolError("vacuity: " + res["vacuity_msg"])
+    if write_evidence:
+        vk.write_evidence(pid, tier, seed, P.get("level", "model_checking"), cov, P.get("assumptions", []),
+                          time.time() - t_start, len(violations))
     return 1 if violations else 0
 
 
